@@ -267,6 +267,10 @@ func runC08(c *core.Ctx) error {
 	}
 	checkNonFatal(c, pkg, r2)
 
+	// ---- R08.4
+	r4 := c.NewRule("R08.4", "S1", "hex escapes are zero-padded exactly below the radix (\\x0H for value < 16, \\xHH otherwise)", 1)
+	checkHexPadding(c, prog, r4)
+
 	// ---- R08.3
 	table, err := panicob.LoadTable(c.VerifDir, "panic_justified.json")
 	if err != nil {
@@ -598,5 +602,118 @@ func checkNonFatal(c *core.Ctx, pkg *packages.Package, r *core.Rule) {
 		if !found {
 			r.Fail("nonfatal:"+k, "-", "no error is recorded for "+desc+": the construct would be passed to RE2 or silently rewritten")
 		}
+	}
+}
+
+// checkHexPadding: every strconv.AppendInt(dst, v, 16) of the package whose
+// destination is a choice between a 2-byte ("\\x") and a 3-byte ("\\x0")
+// prefix must take the unpadded prefix exactly when v >= 16. The comparison
+// that makes the choice is tabulated over v = 0..255.
+func checkHexPadding(c *core.Ctx, prog *core.Prog, r *core.Rule) {
+	pkg := prog.ByPath[pkgRegex]
+	n := 0
+	for _, fn := range core.PkgFuncs(prog.SSA, pkg) {
+		ord := 0
+		for _, call := range core.Calls(fn) {
+			if !core.IsCallTo(call.Common(), "strconv", "AppendInt") {
+				continue
+			}
+			base, _ := core.ConstInt(call.Common().Args[2])
+			phi, ok := call.Common().Args[0].(*ssa.Phi)
+			if !ok || base != 16 {
+				continue
+			}
+			v := call.Common().Args[1]
+			// each edge: Slice with constant High
+			type edge struct {
+				high int64
+				pred *ssa.BasicBlock
+			}
+			var edges []edge
+			okShape := true
+			for i, e := range phi.Edges {
+				sl, ok := e.(*ssa.Slice)
+				if !ok || sl.High == nil {
+					okShape = false
+					break
+				}
+				h, ok := core.ConstInt(sl.High)
+				if !ok {
+					okShape = false
+					break
+				}
+				edges = append(edges, edge{h, phi.Block().Preds[i]})
+			}
+			if !okShape || len(edges) != 2 {
+				continue
+			}
+			n++
+			key := fmt.Sprintf("%s:hex-padding#%d", fn.Name(), ord)
+			ord++
+			// the deciding If: common dominator of both preds, comparing v with a constant
+			var iff *ssa.If
+			for _, b := range fn.Blocks {
+				if i, ok := b.Instrs[len(b.Instrs)-1].(*ssa.If); ok && b.Dominates(edges[0].pred) && b.Dominates(edges[1].pred) {
+					if bo, ok := i.Cond.(*ssa.BinOp); ok && (bo.X == v || bo.Y == v) {
+						iff = i
+					}
+				}
+			}
+			if iff == nil {
+				r.Undecided(key, c.Pos(call.Pos()), "cannot find the comparison that chooses the padding")
+				continue
+			}
+			bo := iff.Cond.(*ssa.BinOp)
+			kv, isK := core.ConstInt(bo.Y)
+			vLeft := true
+			if bo.X != v {
+				kv, isK = core.ConstInt(bo.X)
+				vLeft = false
+			}
+			if !isK {
+				r.Undecided(key, c.Pos(call.Pos()), "padding comparison is not against a constant")
+				continue
+			}
+			// which edge is taken when the condition is true?
+			trueSucc := iff.Block().Succs[0]
+			highWhenTrue := int64(-1)
+			for _, e := range edges {
+				if trueSucc == e.pred || trueSucc.Dominates(e.pred) {
+					highWhenTrue = e.high
+				}
+			}
+			highWhenFalse := edges[0].high
+			if highWhenFalse == highWhenTrue {
+				highWhenFalse = edges[1].high
+			}
+			bad := int64(-1)
+			for x := int64(0); x < 256; x++ {
+				a, b := x, kv
+				if !vLeft {
+					a, b = kv, x
+				}
+				cond := map[token.Token]bool{token.GEQ: a >= b, token.GTR: a > b, token.LSS: a < b, token.LEQ: a <= b, token.EQL: a == b, token.NEQ: a != b}[bo.Op]
+				high := highWhenFalse
+				if cond {
+					high = highWhenTrue
+				}
+				wantHigh := int64(3) // "\\x0" + one digit
+				if x >= 16 {
+					wantHigh = 2 // "\\x" + two digits
+				}
+				if high != wantHigh {
+					bad = x
+					break
+				}
+			}
+			if bad < 0 {
+				r.Pass(fmt.Sprintf("%s: zero padding chosen exactly for values < 16 (tabulated 0..255)", key))
+			} else {
+				r.Fail(key, c.Pos(bo.Pos()), fmt.Sprintf("value %d (0x%x) is written with the wrong number of hex digits after \\x: RE2 reads exactly two, so the escape denotes a different character (e.g. \\cP)", bad, bad))
+			}
+		}
+	}
+	if n == 0 {
+		r.Undecided("hex-padding", "-", "no padded strconv.AppendInt(_, v, 16) found in package ogenregex")
 	}
 }
